@@ -84,6 +84,10 @@ claim("C12", "sibling-table agreement between schema generator, schema validator
       "Per type kind the schema generator publishes the Data class the code generator casts with, and the validator checks each schema node with the helper that tests the matching PlutusData constructor; constructor indices come from @tag (type-level decorators included) with the declaration position as fallback at all three derivation sites; constructors are matched on CBOR tag and general index; tuple arities are equalities; the decoder cache key visits every type component and is injective over type constructors; rejection by Err not panic (one demonstrated panic listed).",
       "`iff` for nested / recursive / generic types (agreement of the three recursive descents beyond one level, on every value) is not decided", "DESIGN.md §3 C12", "shape+flow")
 
+claim("C07", "must-pass-through rule for the exhaustiveness check, shape of the check's decision, who-may-call (MIR callers) of the usefulness algorithm, arm totality of both pattern translations",
+      "Thin: the exhaustiveness check is an unconditional, error-propagating statement on the accepting path of `when` (over all clauses) and `let`; check_exhaustiveness pushes useful rows in source order, rejects a useless row as redundant and a non-empty missing set as non-exhaustive; nothing else drives Matrix::is_useful / collect_missing_patterns; neither pattern translation has a catch-all over Pattern; both implementations take constructor sets from the type definition.",
+      "correctness of the usefulness algorithm and of the decision-tree compiler, and their agreement with each other and with top-to-bottom matching — the core of the property — are not decided", "DESIGN.md §3 C07", "shape+flow")
+
 
 def main():
     props = [json.loads(l) for l in open(os.path.join(HERE, "properties.jsonl"))]
